@@ -156,7 +156,7 @@ def standin_conversions(tier, seed):
         uniq.setdefault(v["key"], v)
     return dict(evaluations=evals, distinct_nontrivial=len(distinct),
                 rule="one evaluation = one conversion round trip of a container (identifiers x naming x shapes); distinct = (ids, naming)",
-                samples=samples, violations=list(uniq.values())[:8],
+                samples=samples, violations=list(uniq.values())[:60],
                 bound=dict(space="6 identifier sets x 9 namings/shapes x 6 value types x 4 conversion paths + 7 invalid additions", exhaustive=True))
 
 
